@@ -225,8 +225,14 @@ def gen_case(rng, pid, tier):
             # re-evaluation event; sometimes for an instance deleted from /scheduled whose children watch has
             # not fired yet (the events watch is served first)
             ops.append(['appsev', rng.randint(1, napps[0]), rng.choice([1, 50, 100]), rng.random() < 0.3])
+        elif r < 0.895:
+            ops.append(['tick', rng.choice([1, 5, 29, 31, 40, 200, 301])])
+        elif r < 0.903 and napps[0]:
+            # the node reports the instance running (or stops doing so)
+            ops.append(['running', rng.randint(1, napps[0]), rng.random() < 0.75])
         elif r < 0.91:
-            ops.append(['tick', rng.choice([1, 5, 29, 31, 40, 200])])
+            # the periodic integrity check of the run loop (instances that should be running but are not)
+            ops.append(['integrity'])
         elif r < (0.94 if long_ else 0.92):
             ops.append(['restart'])
         elif r < (0.97 if long_ else 0.94):
@@ -1160,6 +1166,12 @@ def _put_server(w, sid, spec):
 
 def _presence(w, sid, up, emit=True):
     path = '/server.presence/' + sname(sid)
+    if not hasattr(w, 'presence_lost_at'):
+        w.presence_lost_at = {}
+    if up:
+        w.presence_lost_at.pop(sname(sid), None)
+    elif path in w.store.nodes:
+        w.presence_lost_at[sname(sid)] = w.now          # the outage cannot be older than this
     if up:
         if path in w.store.nodes:
             return False
@@ -1239,6 +1251,8 @@ class _SchedView(object):
         # blacklisted according to the stored list (every change of it is followed by its event in this engine)
         self.blacklist_spec = lambda name, pats=tuple(pats or ()): any(
             fnmatch.fnmatch(name.split('#')[0], p) for p in pats)
+        # when the harness took a server's presence node away: its current outage is not older than that
+        self.down_since_lb = dict(getattr(w, 'presence_lost_at', {}))
         store = w.store
 
         def trait_names(appname, servername):
@@ -1279,6 +1293,19 @@ class _SchedView(object):
                 want = hits_[0].get('partition') or '_default'
             return want, (sdata.get('partition') or '_default')
         self.partition_names = partition_names
+
+
+def _integrity(w, pid):
+    w.stats['integrity-check'] += 1
+    before = {sn: s_.state.value for sn, s_ in w.m.servers.items()}
+    w.m.check_integrity()
+    if pid == 'C08':
+        for sn, s_ in w.m.servers.items():
+            if before.get(sn) == 'down' and s_.state.value != 'down':
+                # `_check_pending_start` concerns servers that are not down: a server that lost its presence
+                # stays `down` (its instances are governed by their retention timeout)
+                _hit(w.run, 'down-server-frozen-by-integrity-check', '_check_pending_start',
+                     '%s: down -> %s' % (sn, s_.state.value))
 
 
 def _cycle(w, pid, dt=2):
@@ -1387,6 +1414,9 @@ def _apply(case, pid, run, w, op):
     if k == 'cycle':
         guarded('cycle', lambda: _cycle(w, pid, op[1] if len(op) > 1 else 2))
         _after_cycle(w, pid, 'cycle')
+        # the run loop's periodic integrity check (instances that should be running but are not)
+        guarded('check_integrity', lambda: _integrity(w, pid))
+        _sync(w)
         return
     if k == 'restart':
         _restart(w, pid, 'restart')
@@ -1523,6 +1553,21 @@ def _apply(case, pid, run, w, op):
         w.zput('/blackedout.apps', op[1])
         _post_event_node(w, 'apps_blacklist', None)
         guarded('event:apps_blacklist', lambda: w.m.process_events(w.store.children('/events')))
+    elif k == 'running':
+        name = w.apps_n.get(op[1])
+        if name is None:
+            return
+        path = '/running/' + name
+        if op[2] and path not in w.store.nodes and '/scheduled/' + name in w.store.nodes:
+            if '/running' not in w.store.nodes:
+                w.admin.create('/running', b'')
+            w.admin.create(path, b'')
+            w.stats['running-reported'] += 1
+        elif not op[2] and path in w.store.nodes:
+            w.zdel(path)
+        return
+    elif k == 'integrity':
+        guarded('check_integrity', lambda: _integrity(w, pid))
     elif k == 'appsev':
         name = w.apps_n.get(op[1])
         if name is None or '/scheduled/' + name not in w.store.nodes:
